@@ -463,6 +463,10 @@ def one(spec, plan, policy, res, mode, log_from=None, instr_points=True):
     res.observe_max("max_scheduling_points_in_one_schedule", s.step_no)
     for fn in S.preemption_sites(s):
         res.observe_set("functions_preempted_in", fn, cap=300)
+    if pre and len(res.samples) < 2:
+        res.sample({"family": spec["fam"], "actors": spec["actors"], "mode": mode, "context_switches": [list(map(str, sw)) for sw in s.switches[:6]],
+                    "timer_events": [list(map(str, t)) for t in s.trace[:6]],
+                    "frames_sent": [(st, who, raw[:12].hex()) for st, who, raw in ctx.sent[:6]], "scheduling_points": s.step_no})
     for key, desc in bad:
         res.violation(f"{key}[{spec['fam']}]", desc, {"spec": spec, "devs": sorted(s.devs.items()), "instr_points": instr_points})
     return ctx
